@@ -124,7 +124,12 @@ NI static void transform_mode(asn_TYPE_descriptor_t *td, const unsigned char *in
                 int p[4] = { 0, 1, 2, 3 };
                 while(next_perm(p, c)) { for(int i = 0; i < c; i++) l->array[i] = orig[p[i]]; check_same(td, s0, r, &base, "setof_perm", ni, R); R->kinds[0]++; }
             } else {
-                for(int rot = 1; rot < c; rot++) { for(int i = 0; i < c; i++) l->array[i] = orig[(i + rot) % c]; check_same(td, s0, r, &base, "setof_rot", ni, R); R->kinds[0]++; }
+                /* every rotation for short lists; for long ones (fragmented PER lengths) the rotations that move elements across
+                 * the 16K fragment boundaries and the two extremes */
+                int few[6] = { 1, c / 2, c - 1, 16384, c - 16384, 100 };
+                for(int rot = 1; rot < c; rot++) {
+                    if(c > 64) { int use = 0; for(int q = 0; q < 6; q++) if(few[q] == rot) use = 1; if(!use) continue; }
+                    for(int i = 0; i < c; i++) l->array[i] = orig[(i + rot) % c]; check_same(td, s0, r, &base, "setof_rot", ni, R); R->kinds[0]++; }
                 for(int i = 0; i < c; i++) l->array[i] = orig[c - 1 - i]; check_same(td, s0, r, &base, "setof_rev", ni, R); R->kinds[0]++;
             }
             memcpy(l->array, orig, c * sizeof(void *)); __real_free(orig);
